@@ -10,4 +10,32 @@ PROPS = {
                        "(obligation call-pre:Unit#k:C01-dimension-is-fold), every function that allocates units re-establishes I_U, and a static "
                        "frame scan shows nothing else writes dimension/factors/_known.",
     },
+    "C02": {
+        "level": "proof",
+        "trusted": ["mixed-base prefix arithmetic: exponent identities proved over the reals with uninterpreted log (A4); the 1e-9 float tolerance is bounded only",
+                    "group laws not completed by the solver and therefore bounded only: prefix associativity, unit associativity, unit neutral element, "
+                    "unit exponent sum, unit root-of-power (see contracts/c_lemmas.py BOUNDED_ONLY)"],
+        "explanation": "Operator contracts describe results on the abstract view (exponent vectors, (base, exponent), factor maps as lambda terms); the intern "
+                       "table invariants I_D/I_P/I_U give canonicity (equal view => same object); the group laws are lemma functions "
+                       "(contracts/lemma_src.py) executed symbolically against the contracts, each assert being an obligation.",
+    },
+    "C03": {
+        "level": "proof",
+        "trusted": ["conversions.convert (dimension gate, asked unit, Decimal preservation): contract assumed here, see C04"],
+        "explanation": "Contracts on _add.._div (Decimal lattice), Quantity * / ** unary + - (dimension homomorphism through the C01 invariant, Decimal "
+                       "preservation, left unit), exceptional postconditions for different dimensions. Quantity.__rtruediv__ is a recorded finding.",
+    },
+    "C11": {
+        "level": "proof",
+        "trusted": ["value-level identities use the ghost pval(p) = base**exponent over the reals (A4); float tolerances are bounded only"],
+        "explanation": "Prefix algebra contracts (canonical (base, exponent)), Unit operations propagate prefixes (prefix posts of _multiply/_divide/__pow__/root), "
+                       "quantify/unprefixed preserve the ghost value, lemma prefixed_power: (p*u)**n is p**n * u**n.",
+    },
+    "C19": {
+        "level": "proof",
+        "trusted": ["Dimension.define/derive: covered by the bounded stand-in only (Dimension.define rewrites every key of the intern table in a loop)"],
+        "explanation": "Registry invariants I_R (units) and I_RP (prefixes): a name/symbol is bound to an object iff the object reports it. Unit.alias, "
+                       "Unit.define and the named Prefix constructor are verified against 'bound and reported afterwards, from every prior state "
+                       "(including one holding an equal anonymous object)' and against the exceptional frame 'raises => registries unchanged'.",
+    },
 }
